@@ -412,8 +412,13 @@ func Eq(a, b *Term) *Term {
 	if b.Op == "ite" && a.Const {
 		return iteEqConst(b, a)
 	}
-	if a.Kind == SBV && a.IntF != nil && b.IntF != nil {
-		return newTerm(&Term{Kind: SBool, Op: "=", Args: []*Term{a.IntF, b.IntF}})
+	if a.Kind == SBV && (a.IntF != nil || b.IntF != nil) {
+		if ia, ib := intForm(a), intForm(b); ia != nil && ib != nil {
+			if ia.Const && ib.Const {
+				return BoolC(ia.U == ib.U)
+			}
+			return newTerm(&Term{Kind: SBool, Op: "=", Args: []*Term{ia, ib}})
+		}
 	}
 	// string: concat-of-constants prefix mismatch quick checks
 	if a.Kind == SString {
@@ -778,9 +783,19 @@ func BVResize(a *Term, w int, signed bool) *Term {
 
 // ---------------------------------------------------------------- strings
 
+// fixedLenVars: string variables declared with an exact length (harness vfStringN).
+var fixedLenVars sync.Map
+
+func SetFixedLen(name string, n int) { fixedLenVars.Store(name, n) }
+
 func StrLenInt(s *Term) *Term {
 	if s.Const {
 		return IntC(int64(len(s.S)))
+	}
+	if s.Op == "var" {
+		if n, ok := fixedLenVars.Load(s.S); ok {
+			return IntC(int64(n.(int)))
+		}
 	}
 	if s.Op == "str.++" {
 		var sum *Term = IntC(0)
@@ -940,6 +955,51 @@ func StrSubstr(s, off, n *Term) *Term { // Int off, n
 		return StrC(s.S[o : o+l])
 	}
 	if off.Const && off.U == 0 && n.Op == "str.len" && n.Args[0] == s {
+		return s
+	}
+	// substr over a concatenation whose leading parts have known lengths
+	if s.Op == "str.++" && off.Const && n.Const {
+		o, l := int64(off.U), int64(n.U)
+		parts := s.Args
+		// skip whole leading parts covered by the offset
+		for len(parts) > 0 && o > 0 {
+			pl := StrLenInt(parts[0])
+			if !pl.Const || int64(pl.U) > o {
+				break
+			}
+			o -= int64(pl.U)
+			parts = parts[1:]
+		}
+		if o == 0 && l >= 0 {
+			var take []*Term
+			rem := l
+			ok := true
+			for _, p := range parts {
+				if rem == 0 {
+					break
+				}
+				pl := StrLenInt(p)
+				if !pl.Const {
+					ok = false
+					break
+				}
+				if int64(pl.U) <= rem {
+					take = append(take, p)
+					rem -= int64(pl.U)
+				} else if p.Const {
+					take = append(take, StrC(p.S[:rem]))
+					rem = 0
+				} else {
+					ok = false
+					break
+				}
+			}
+			if ok && rem == 0 {
+				return StrConcat(take...)
+			}
+		}
+	}
+	if sl := StrLenInt(s); sl.Const && off.Const && n.Const && off.U == 0 && int64(n.U) == int64(sl.U) {
 		return s
 	}
 	return strOp(SString, "str.substr", s, off, n)
